@@ -43,6 +43,9 @@ type incSpec struct {
 	HoldDst int `json:"hold_dst,omitempty"`
 	// FullSync: fullSyncOnStart.
 	FullSync bool `json:"full_sync,omitempty"`
+	// BlockFullSync: blockingFullSyncOnStart (the constructor returns only after the start-up
+	// full sync; never combined with gates or a planned freeze).
+	BlockFullSync bool `json:"blocking_full_sync,omitempty"`
 }
 
 type scenario struct {
@@ -65,7 +68,14 @@ type scenario struct {
 	NBlobs      int `json:"n_blobs,omitempty"` // when Refs is abbreviated
 	// Twin: a second sync handler (own memory destination "dst2" and queue "queue2") is attached to
 	// the same source object; every acknowledged blob must reach both destinations.
-	Twin  bool       `json:"twin,omitempty"`
+	Twin bool `json:"twin,omitempty"`
+	// Via: how the client's uploads reach the sync source.  "" = blobserver.Receive on the source
+	// itself; "replica" = blobserver.Receive on a storage-replica whose write backends are the
+	// source and a second store; "cond" = blobserver.Receive on a storage-cond that routes schema
+	// blobs to that replica and everything else to the source (the shape of perkeepd's blob root);
+	// "replica+sync" = a replica whose write backends are the source, a second store and the sync
+	// handler itself (its ReceiveBlob enqueues).
+	Via   string     `json:"via,omitempty"`
 	blobs []sto.Blob // not serialised
 	hist  []int      // the full history (History is abbreviated in witnesses of big scenarios)
 	extra []sto.Blob // destination-only blobs
@@ -318,6 +328,9 @@ func generate(rng *rand.Rand, thorough bool) []*scenario {
 				continue
 			}
 			bl := blobsFor(rng, dest, m, tag())
+			if dest == "memory" && k%4 == 0 {
+				bl[m-1] = sto.FromBytes([]byte{}) // the zero-length blob is among the rows pending at the crash
+			}
 			add(&scenario{
 				ID:     fmt.Sprintf("RO/%s/k%d", dest, k),
 				Family: "restart-outage", Kind: "restart-under-dst-outage", Dest: dest, History: seq(m),
@@ -438,6 +451,17 @@ func generate(rng *rand.Rand, thorough bool) []*scenario {
 		}, bl)
 	}
 
+	// … and one where the FIRST upload is held inside its receive hook at queue.Set while a second
+	// upload of the same blob is enqueued, copied and dequeued; the held Set lands afterwards
+	for _, dest := range dests {
+		bl := blobsFor(rng, dest, 2, tag())
+		add(&scenario{
+			ID: "S/reupload-during-queue-set/" + dest, Family: "race", Kind: "schedule-reupload-during-queue-set", Dest: dest, History: seq(2),
+			Incs: []incSpec{{Uploads: -1, FreezeAt: -1, ReuploadAtGate: true,
+				Faults: []faultSpec{{Layer: "queue", Op: "Set", Mode: "gate", Nth: []int{0}}}}},
+		}, bl)
+	}
+
 	// ---- family "pool": every copier pool size, fault-free, with fewer / as many / more blobs
 	// than workers; once with the blobs already queued at start-up (restart under outage).
 	pools := []int{1, 2}
@@ -479,15 +503,15 @@ func generate(rng *rand.Rand, thorough bool) []*scenario {
 		variants := []struct {
 			dest    string
 			restart bool
-		}{{"memory", false}}
+		}{{"memory", false}, {"memory", true}}
 		if thorough {
 			variants = append(variants, struct {
 				dest    string
 				restart bool
-			}{"memory", true}, struct {
+			}{"index", false}, struct {
 				dest    string
 				restart bool
-			}{"index", false})
+			}{"index", true})
 		}
 		for _, v := range variants {
 			var bl []sto.Blob
@@ -568,6 +592,9 @@ func generate(rng *rand.Rand, thorough bool) []*scenario {
 				}
 				for _, k := range ks {
 					bl := blobsFor(rng, dest, m, tag())
+					if dest == "memory" {
+						bl[0] = sto.FromBytes([]byte{}) // its row "=> 0" goes through the KV file and back
+					}
 					first := incSpec{Uploads: 2, FreezeAt: int64(k), CrashNow: k < 0,
 						Faults: []faultSpec{{Layer: "dst", Op: "ReceiveBlob", Mode: "error", Nth: seq(40)}}}
 					add(&scenario{
@@ -675,6 +702,155 @@ func generate(rng *rand.Rand, thorough bool) []*scenario {
 				sc.extra = tinyBlobs("dst-only "+t, v.xtra)
 			}
 			add(sc, bl)
+		}
+	}
+
+	// ---- family "full-sync-restart": every blob is still queued at a crash (destination outage);
+	// the next incarnation runs fullSyncOnStart / blockingFullSyncOnStart, and a finite number of
+	// transient failures (destination error / wrong-size ack / lost ack, source error / corrupt /
+	// short / mis-sized read) hit the copies made during the start-up sync.  Every blob was
+	// acknowledged with a queue row, so each must be delivered once the failures stop.  (Blobs that
+	// are in the source WITHOUT a queue row are not part of this family: the statement covers
+	// received blobs only.)
+	{
+		type fv struct {
+			kind  string
+			dest  string
+			block bool
+			per   int // failures per pending blob
+			late  int // uploads that arrive in the full-sync incarnation
+			// validate: the recovering incarnation runs validateOnStart instead of a full sync
+			validate bool
+		}
+		var variants []fv
+		if thorough {
+			for _, k := range []string{"dst-receive-error", "dst-receive-misreport", "dst-receive-error-after-effect",
+				"src-fetch-error", "src-fetch-corrupt", "src-fetch-short", "src-fetch-wrong-size"} {
+				for _, dest := range dests {
+					for _, block := range []bool{false, true} {
+						for _, per := range []int{1, 2} {
+							late := 0
+							if !block && per == 1 {
+								late = 1
+							}
+							variants = append(variants, fv{k, dest, block, per, late, false})
+						}
+					}
+					variants = append(variants, fv{k, dest, false, 1, 1, true})
+				}
+			}
+		} else {
+			variants = []fv{
+				{"dst-receive-error", "memory", false, 1, 0, false},
+				{"dst-receive-error", "index", true, 1, 0, false},
+				{"dst-receive-misreport", "memory", true, 2, 0, false},
+				{"src-fetch-error", "memory", true, 1, 0, false},
+				{"src-fetch-error", "index", false, 2, 0, false},
+				{"src-fetch-corrupt", "index", false, 1, 1, false},
+				{"src-fetch-wrong-size", "memory", false, 1, 1, false},
+				{"dst-receive-error", "memory", false, 1, 1, true},
+			}
+		}
+		for _, v := range variants {
+			var kd kindDef
+			for _, k := range faultKinds {
+				if k.name == v.kind {
+					kd = k
+				}
+			}
+			m := 3
+			bl := blobsFor(rng, v.dest, m+v.late, tag())
+			mode := "async"
+			rec := incSpec{Uploads: -1, FreezeAt: -1, FullSync: !v.block && !v.validate, BlockFullSync: v.block, Validate: v.validate,
+				Faults: []faultSpec{{Layer: kd.layer, Op: kd.op, Mode: kd.mode, Nth: seq(v.per * m)}}}
+			if v.block {
+				mode = "blocking"
+			}
+			if v.validate {
+				mode = "validate"
+			}
+			add(&scenario{
+				ID:     fmt.Sprintf("FS/%s/%s/%s/x%d", v.kind, v.dest, mode, v.per),
+				Family: "full-sync-restart", Kind: "pending-at-full-sync-start+" + v.kind, Dest: v.dest, History: seq(m + v.late),
+				Incs: []incSpec{
+					{Uploads: m, FreezeAt: -1, CrashNow: true, Faults: []faultSpec{{Layer: "dst", Op: "ReceiveBlob", Mode: "error", Nth: seq(40)}}},
+					rec,
+				},
+			}, bl)
+		}
+	}
+
+	// ---- family "routed": the client does not upload to the sync source itself but to a
+	// storage-replica of which the source is one write backend, or to a storage-cond that sends
+	// schema blobs to that replica and everything else straight to the source (how perkeepd's
+	// blob root reaches /bs/).  The source still receives every blob, so every one is owed to the
+	// destination.
+	{
+		type rv struct {
+			name   string
+			via    string
+			dest   string
+			faults []faultSpec
+			crash  bool
+			retry  bool
+		}
+		outage := []faultSpec{{Layer: "dst", Op: "ReceiveBlob", Mode: "error", Nth: seq(40)}}
+		variants := []rv{
+			{"clean", "replica", "memory", nil, false, false},
+			{"clean", "cond", "memory", nil, false, false},
+			{"clean", "cond", "index", nil, false, false},
+			{"dst-outage+restart", "replica", "memory", outage, true, false},
+			{"dst-outage+restart", "cond", "index", outage, true, false},
+			{"queue-set-error", "cond", "memory", []faultSpec{{Layer: "queue", Op: "Set", Mode: "error", Nth: []int{0, 2}}}, false, true},
+			{"clean", "replica+sync", "memory", nil, false, false},
+		}
+		if thorough {
+			variants = append(variants,
+				rv{"clean", "replica", "index", nil, false, false},
+				rv{"dst-outage+restart", "replica+sync", "memory", outage, true, false},
+				rv{"dst-receive-error", "replica+sync", "index", []faultSpec{{Layer: "dst", Op: "ReceiveBlob", Mode: "error", Nth: []int{0, 2}}}, false, false},
+				rv{"dst-outage+restart", "cond", "memory", outage, true, false},
+				rv{"dst-outage+restart", "replica", "index", outage, true, false},
+				rv{"queue-set-error", "replica", "index", []faultSpec{{Layer: "queue", Op: "Set", Mode: "error", Nth: []int{1}}}, false, true},
+				rv{"queue-set-error-after-effect", "replica", "memory", []faultSpec{{Layer: "queue", Op: "Set", Mode: "error-after-effect", Nth: []int{0, 1}}}, false, true},
+				rv{"dst-receive-error", "cond", "memory", []faultSpec{{Layer: "dst", Op: "ReceiveBlob", Mode: "error", Nth: []int{0, 1, 3}}}, false, false},
+				rv{"src-fetch-corrupt", "replica", "memory", []faultSpec{{Layer: "src", Op: "Fetch", Mode: "corrupt", Nth: []int{0, 2}}}, false, false},
+			)
+		}
+		routedBlobs := func(dest, t string) []sto.Blob {
+			if dest == "index" {
+				return blobsFor(rng, dest, 6, t) // key, permanode, claim (schema) — chunk (not) — file (schema) — text (not)
+			}
+			// memory destination: two signed schema blobs, a file schema with its chunk, plain blobs, the empty blob
+			sg := hw.NewSigner(1)
+			pn := sg.Permanode("c19-routed-" + t)
+			cl := sg.Claim(hw.Set, pn.Ref, "title", "r-"+t, hw.T(2013, rng.Intn(1000)))
+			content := make([]byte, 300+rng.Intn(3000))
+			rng.Read(content)
+			file, chunk := hw.FileOf("r-"+t+".bin", content, hw.T(2014, 2))
+			return append([]sto.Blob{pn, chunk, cl, sto.FromBytes([]byte{}), file}, blobsFor(rng, "memory", 2, t)...)
+		}
+		for _, v := range variants {
+			t := tag()
+			bl := routedBlobs(v.dest, t)
+			first := incSpec{Uploads: -1, FreezeAt: -1, RetryNow: v.retry, Faults: v.faults, CrashNow: v.crash}
+			incs := []incSpec{first}
+			if v.crash {
+				incs = append(incs, clean())
+			}
+			add(&scenario{ID: fmt.Sprintf("U/%s/%s/%s", v.via, v.dest, v.name), Family: "routed", Kind: "upload-via-" + v.via + "+" + v.name,
+				Dest: v.dest, History: seq(len(bl)), Incs: incs, Via: v.via}, bl)
+		}
+		// restarts at every lower-layer call k of a short history whose uploads arrive through the replica
+		if thorough {
+			for _, dest := range dests {
+				m := 3
+				for k := 0; k <= 1+5*m; k++ {
+					bl := blobsFor(rng, dest, m, tag())
+					add(&scenario{ID: fmt.Sprintf("U/replica/%s/restart/k%d", dest, k), Family: "routed", Kind: "upload-via-replica+restart",
+						Dest: dest, History: seq(m), Incs: []incSpec{{Uploads: -1, FreezeAt: int64(k)}, clean()}, Via: "replica"}, bl)
+				}
+			}
 		}
 	}
 	return out
